@@ -21,7 +21,7 @@ RULE = ("cases = (system kind & configuration, cell type, grid, band selection);
         "plain diagonalisation at that corner; non-trivial key = (kind, configuration class, cell, grid) — for "
         "SystemSOC the configuration class is the relation between the spin-down and spin-up R-vector lists")
 ASSUMPTIONS = [
-    "systems are the in-memory zoo (num_wann 1-3 per spin, lattices tric/hex/fcc, R-sets shell1/shell2/lopsided); "
+    "systems are the in-memory zoo (num_wann 1-3 per spin (4 in thorough), lattices tric/hex/fcc (+bcc/mono in thorough), R-sets shell1/shell2/lopsided); "
     "SOC data are synthetic (generic smooth in k) passed through the real set_soc_R on a 2x2x2 mesh",
     "grids: NKdiv in {1,2} x NKFFT in {1,2,(2,3,1)}; GridTetra with 5 (unsplit) and split tetrahedra; no adaptive refinement history",
     "k.p corner points exactly on the +-1/2 box boundary (where SystemKP's wrap is discontinuous) accept either side",
@@ -45,12 +45,14 @@ SOC_REL = [
     ("different", "shell1", "lopsided", "id"),
 ]
 SOC_BASE = [(1, "tric"), (2, "tric"), (2, "hex")]
+R_SYSTEMS_T = R_SYSTEMS + [(2, "bcc", "shell2"), (3, "mono", "shell2"), (4, "tric", "shell1")]
+SOC_BASE_T = SOC_BASE + [(3, "tric"), (1, "hex"), (2, "fcc")]
 KP_MODELS = ["mass1", "dirac2", "dirac2_orth"]
 
 PAR_GRIDS = [(1, 1), (1, 2), (2, 1), (2, 2), (1, (2, 3, 1)), (2, (2, 3, 1))]
 # lengths chosen off the exact ties size==dkmax at which GridTetra.split_tetra_size never terminates (e.g. fcc, length=1.0)
 TET_GRIDS_Q = [(1.1, 1), (1.1, 2), (1.1, (2, 3, 1)), (3.3, 1)]
-TET_GRIDS_T = TET_GRIDS_Q + [(3.3, 2), (5.3, 1), (3.3, (2, 3, 1))]
+TET_GRIDS_T = TET_GRIDS_Q + [(3.3, 2), (5.3, 1), (3.3, (2, 3, 1)), (5.3, 2)]
 
 
 def cases(tier, seed):
@@ -59,14 +61,14 @@ def cases(tier, seed):
     out = []
     for cell, g in grids:
         for sel in (False, True):
-            for nw, lat, rs in R_SYSTEMS:
+            for nw, lat, rs in (R_SYSTEMS if tier == "quick" else R_SYSTEMS_T):
                 for ph in (False, True):
                     if ph and (tier == "quick") and nw == 3:
                         continue
                     out.append({"kind": "R", "nw": nw, "lat": lat, "rs": rs, "phonon": ph,
                                 "cell": cell, "grid": list(g), "select": sel})
             for rel in SOC_REL:
-                for nw, lat in SOC_BASE:
+                for nw, lat in (SOC_BASE if tier == "quick" else SOC_BASE_T):
                     for with_soc in (False, True):
                         if tier == "quick" and (nw, lat) == (2, "hex") and not with_soc:
                             continue
